@@ -2,6 +2,8 @@ import Mkdb.Proofs.Tree
 import Mkdb.Proofs.Forest
 import Mkdb.Proofs.RefineScan
 import Mkdb.Proofs.RefineInsert
+import Mkdb.Proofs.FlushReload3
+import Mkdb.Proofs.LeafChain
 /-!
 # C11 — the on-disk B+ tree keeps its shape invariants
 
@@ -14,7 +16,10 @@ per node (`LinkOK`), no page twice (`OffsOK`), the doubly linked leaf chain = th
 order (`ChainOK`).  Quantifier: every history of inserts with ascending keys, value changes and
 deletions, of any length - any number of leaf splits, internal splits at any depth and root
 growths; no bound.  Flushes and reloads do not change the logical pages (C12: the page codec
-round-trips; C16: the cache is transparent), so they are not operations of this model.
+round-trips; C16: the cache is transparent), so they are not operations of the levels model; on the
+heap model they are: `C11_flush_and_reload_preserve_the_tree` and
+`C11_every_history_with_flushes_and_reloads` (at the end of this file) put them into the quantifier.
+The two leaf chains are walked explicitly in `C11_leaf_chains`.
 
 The levels model is tied to the code through the heap model `Mkdb.Store` (compared page for page
 with the implementation): every insert the heap model performs is cross-checked against
@@ -155,5 +160,210 @@ theorem C11_cross_check_never_fires (s : Store) (t : Levels) (key lsn : Nat) (va
       insertAppend t key lsn value s.hdr.nextFree = .error .rowTooLarge) :
     insertKey ⟨rootOff t⟩ key lsn value s = insertKeyHeap ⟨rootOff t⟩ key lsn value s :=
   insertKey_eq_insertKeyHeap s t key lsn value hH hI hdepth hres
+
+end Mkdb.Store
+
+/-! ## The two leaf chains, walked -/
+
+namespace Mkdb.Tree
+open Mkdb.Page Mkdb.Generated
+
+/-- **C11.leaf_chains**: in a well-formed tree, the left-to-right leaf chain - start at the first leaf,
+follow `hasR` / `rSib`, read each sibling from the tree's own pages by offset (`walkRight`, the loop of
+`scanRight`) - is exactly the list of leaves in tree order; the right-to-left chain - start at the last
+leaf, follow `hasL` / `lSib` (`walkLeft`, the loop of `scanLeft`) - is exactly that list reversed; so each
+chain is the exact reverse of the other.  Both walks end by themselves (the outermost leaves carry no
+sibling flag): any fuel of at least the number of leaves gives the same result.  Hypotheses: `Inv t nf`
+(which `C11_every_history` provides after every history); `first` / `last` are the first and last leaf
+(a well-formed tree has at least one leaf). -/
+theorem C11_leaf_chains (t : Levels) (nf : Nat) (hinv : Inv t nf) (first last : Leaf × Bool)
+    (hfirst : t.leaves.head? = some first) (hlast : t.leaves.getLast? = some last) (extra : Nat) :
+    walkRight (leafAt t) (t.leaves.length + extra) first.1 = t.leaves.map (·.1) ∧
+    walkLeft (leafAt t) (t.leaves.length + extra) last.1 = (t.leaves.map (·.1)).reverse ∧
+    walkLeft (leafAt t) (t.leaves.length + extra) last.1 =
+      (walkRight (leafAt t) (t.leaves.length + extra) first.1).reverse := by
+  have h1 := walkRight_leaves t nf hinv first hfirst extra
+  have h2 := walkLeft_leaves t nf hinv last hlast extra
+  exact ⟨h1, h2, by rw [h1, h2]⟩
+
+/-- …hence after every history: the tree has a first and a last leaf, and the two walks from them give the
+leaves in tree order and in reverse tree order. -/
+theorem C11_leaf_chains_after_history (off nf : Nat) (h : off < nf) (ops : List TOp) :
+    ∃ first last, (runOps (emptyTree off, nf) ops).1.leaves.head? = some first ∧
+      (runOps (emptyTree off, nf) ops).1.leaves.getLast? = some last ∧
+      walkRight (leafAt (runOps (emptyTree off, nf) ops).1) (runOps (emptyTree off, nf) ops).1.leaves.length first.1 =
+        (runOps (emptyTree off, nf) ops).1.leaves.map (·.1) ∧
+      walkLeft (leafAt (runOps (emptyTree off, nf) ops).1) (runOps (emptyTree off, nf) ops).1.leaves.length last.1 =
+        ((runOps (emptyTree off, nf) ops).1.leaves.map (·.1)).reverse := by
+  have hinv := C11_every_history off nf h ops
+  generalize (runOps (emptyTree off, nf) ops).1 = t at hinv
+  generalize (runOps (emptyTree off, nf) ops).2 = nf' at hinv
+  have hne : t.leaves ≠ [] := by
+    have := linked_below_ne t.inner _ hinv.link
+    intro h0; rw [h0] at this; exact this rfl
+  obtain ⟨first, hf⟩ : ∃ first, t.leaves.head? = some first := by
+    cases hl : t.leaves with
+    | nil => exact absurd hl hne
+    | cons a _ => exact ⟨a, rfl⟩
+  obtain ⟨last, hl⟩ : ∃ last, t.leaves.getLast? = some last :=
+    ⟨t.leaves.getLast hne, List.getLast?_eq_some_getLast hne⟩
+  obtain ⟨h1, h2, _⟩ := C11_leaf_chains t nf' hinv first last hf hl 0
+  exact ⟨first, last, hf, hl, h1, h2⟩
+
+/-- non-vacuity: after 20 inserts (four leaves under a root) the walk to the right from the first leaf
+visits the four leaves at offsets 4096, 8192, 16384, 20480 and the walk to the left visits them backwards -/
+example :
+    let t := (runOps (emptyTree 4096, 8192) ((List.range' 1 20).map fun k => .ins k 0 [])).1
+    (t.leaves.head?.map fun f => (walkRight (leafAt t) t.leaves.length f.1).map (·.off)) = some [4096, 8192, 16384, 20480] ∧
+    (t.leaves.getLast?.map fun l => (walkLeft (leafAt t) t.leaves.length l.1).map (·.off)) = some [20480, 16384, 8192, 4096] := by
+  decide
+
+end Mkdb.Tree
+
+/-! ## Flushes and reloads -/
+
+namespace Mkdb.Store
+open Mkdb.Tree Mkdb.Page
+
+/-- **C11.flush_and_reload_preserve_the_tree**: if the page heap holds a well-formed tree `t`
+(`Holds s t`, `Inv t nextFree`), then after `flushPages order` - *any* page write order - and after the
+re-open that follows (`reopen`: the cache dropped, the header re-read, every page read from the data file
+again), the heap still holds the same tree: page for page the same nodes at the same offsets, every dirty
+bit cleared (`clean t`; `flatten (clean t)` is `flatten t` with `false` in every dirty bit).  So the tree
+is still well formed at the same allocation frontier, has the same root and the same cells, and every
+stored key is still found by point lookup from the root; every page of it is in the data file.
+Hypotheses: `MemFiled s` (every cached page object sits under the offset it carries - every primitive of
+the page store keeps that) and `SyncedT s t` (the pages of `t` the cache shows *clean* are in the data
+file as shown - true of a tree whose pages are all dirty, kept by every tree operation, flush and
+re-open: `HeapInv`).  A re-open *without* the flush is a crash and loses the dirty pages (see the examples
+below); that is C02/C03, not this property. -/
+theorem C11_flush_and_reload_preserve_the_tree (s : Store) (t : Levels) (order : List Nat)
+    (hH : Holds s t) (hI : Inv t s.hdr.nextFree) (hmf : MemFiled s) (hsy : SyncedT s t) :
+    ∃ s', flushPages order s = .ok () s' ∧
+      Holds s' (clean t) ∧ s'.hdr = s.hdr ∧
+      Holds (reopen s') (clean t) ∧ (reopen s').hdr = s.hdr ∧ OnDiskT (reopen s') (clean t) ∧
+      flatten (clean t) = (flatten t).map (fun e => (e.1, e.2.1, false)) ∧
+      Inv (clean t) (reopen s').hdr.nextFree ∧ rootOff (clean t) = rootOff t ∧ cells (clean t) = cells t ∧
+      ∀ c ∈ cells t, lookup (clean t) c.key = some c := by
+  obtain ⟨s', e, hH', hh, hdh, _, _, _, hod⟩ := flush_holds order s t hH hmf
+  have hod' := hod hsy
+  have hro : (reopen s').hdr = s.hdr := hdh
+  have hI' : Inv (clean t) (reopen s').hdr.nextFree := by rw [hro]; exact clean_inv t _ hI
+  refine ⟨s', e, hH', hh, ?_, hro, hod'.of_disk rfl, flatten_clean t, hI', rootOff_clean t, cells_clean t, ?_⟩
+  · have := reopen_holds s' (clean t) hod'
+    rw [clean_clean] at this
+    exact this
+  · intro c hc
+    exact lookup_finds _ _ hI' c (by rw [cells_clean]; exact hc)
+
+/-- **C11.reload_preserves_a_tree_on_disk**: re-opening a data file that has every page of a tree (`OnDiskT`: what a flush
+leaves, `C11_flush_and_reload_preserve_the_tree`) gives a heap that holds the tree, all pages clean -
+whatever the cache held. -/
+theorem C11_reload_preserves_a_tree_on_disk (s : Store) (t : Levels) (hd : OnDiskT s t) :
+    Holds (reopen s) (clean t) ∧ OnDiskT (reopen s) (clean t) ∧ MemFiled (reopen s) :=
+  ⟨reopen_holds s t hd, hd.clean.of_disk rfl, reopen_memFiled s⟩
+
+/-- non-vacuity of `C11_reload_preserves_a_tree_on_disk`: the store the history `opsF0` up to its last
+flush ends in has every page of a three-leaf tree in the data file -/
+example : ∃ s t, OnDiskT s t ∧ t.leaves.length = 3 := by
+  obtain ⟨s1, _, _, _, h1, _⟩ := heapRunF_refines (opsF0.take 21) s0 (emptyTree 4096) s0_heapInv (by decide)
+  obtain ⟨s2, _, _, _, _, hod, _⟩ := h1.flush []
+  exact ⟨s2, _, hod, by decide⟩
+
+/-- the hypothesis "flushed first" cannot be dropped: the store `s0` holds the one-leaf tree of a fresh
+table in a dirty cached page; re-opened without a flush, the page is gone -/
+example : Holds s0 (emptyTree 4096) ∧ view (reopen s0) 4096 = none := ⟨s0_holds, rfl⟩
+
+/-- a store whose cache shows a *clean* page that differs from the data file (LSN 0 in the cache, LSN 7 in
+the file); the page store never produces such a cache (a clean page object is a copy of the file) -/
+def sStale : Store :=
+  { hdr := { nextFree := 8192 }, dhdr := { nextFree := 8192 },
+    mem := [(4096, ⟨.leaf ⟨4096, 0, false, false, 0, 0, []⟩, false⟩)],
+    disk := [(4096, .leaf ⟨4096, 7, false, false, 0, 0, []⟩)] }
+
+/-- the hypothesis `SyncedT` cannot be dropped either: the heap of `sStale` holds the clean one-leaf tree;
+a flush writes nothing (nothing is dirty); the re-opened data file shows the other page -/
+example : Holds sStale (clean (emptyTree 4096)) ∧
+    ∃ s', flushPages [] sStale = .ok () s' ∧ ¬ Holds (reopen s') (clean (emptyTree 4096)) := by
+  refine ⟨?_, _, rfl, ?_⟩
+  · intro e he
+    simp [flatten, clean, emptyTree] at he
+    subst he
+    rfl
+  · intro h
+    have := h (4096, .leaf ⟨4096, 0, false, false, 0, 0, []⟩, false) (by simp [flatten, clean, emptyTree])
+    revert this
+    decide
+
+/-- **C11.every_history_with_flushes_and_reloads**: histories in which flushes (any page write order)
+and reloads are interleaved with insertions, value changes and deletions (`FROp`, `heapRunF`: the
+operations of `C01_heap_history` plus `flush order` and `reload` = `Store.reopen`).  Started in a store
+whose heap holds a well-formed tree `t` (`HeapInv s t`: `Holds`, `Inv`, the cache filed, the clean pages
+in the data file, the frontier saved when nothing is dirty - true of a freshly created table,
+`HeapInv.of_all_dirty`), the heap run succeeds and returns the root of the tree `t'` of the levels run
+`runF`, in which a flush and a reload only clear dirty bits; the final heap holds `t'`; `t'` satisfies the
+whole shape invariant at the final allocation frontier; every stored key is found by point lookup from
+the root, on the levels model and by `findLeaf` on the heap.  Hypotheses `RunOKF` (decidable, along the
+levels run): `RunOK` of `C01_heap_history` for the tree operations (ascending insert keys, updated
+values that fit a cell, no deletion of a tombstone, depth below the fuel bound 64) and a reload only at a
+moment when no page of the tree is dirty (`clean t = t`) - a re-open with dirty pages is a crash. -/
+theorem C11_every_history_with_flushes_and_reloads (ops : List FROp) (s : Store) (t : Levels)
+    (h : HeapInv s t) (hok : RunOKF (t, s.hdr.nextFree) ops)
+    (hdepth : (runF (t, s.hdr.nextFree) ops).1.inner.length + 1 ≤ treeFuel) :
+    ∃ s' root', heapRunF (rootOff t) ops s = .ok root' s' ∧
+      root' = rootOff (runF (t, s.hdr.nextFree) ops).1 ∧
+      Holds s' (runF (t, s.hdr.nextFree) ops).1 ∧
+      Inv (runF (t, s.hdr.nextFree) ops).1 s'.hdr.nextFree ∧
+      HeapInv s' (runF (t, s.hdr.nextFree) ops).1 ∧
+      (∀ c ∈ cells (runF (t, s.hdr.nextFree) ops).1, lookup (runF (t, s.hdr.nextFree) ops).1 c.key = some c) ∧
+      (∀ c ∈ cells (runF (t, s.hdr.nextFree) ops).1, ∃ s'' l, findLeaf treeFuel root' c.key s' = .ok l s'' ∧
+        l.cells.find? (fun x => x.key == c.key) = some c ∧ view s'' = view s') := by
+  obtain ⟨s', root', e, hr, h', _⟩ := heapRunF_refines ops s t h hok
+  refine ⟨s', root', e, hr, h'.holds, h'.inv, h', fun c hc => lookup_finds _ _ h'.inv c hc, ?_⟩
+  intro c hc
+  obtain ⟨s'', l, _, e2, _, hv, _, hfind⟩ := findLeaf_key s' _ _ h'.holds h'.inv hdepth c.key
+  exact ⟨s'', l, by rw [hr]; exact e2, hfind c hc rfl, hv⟩
+
+/-- **C11.flushes_and_reloads_change_nothing_logical**: the tree at the end of a history with flushes and
+reloads (`runF`, the tree the heap holds by `C11_every_history_with_flushes_and_reloads`) is, up to dirty
+bits, the tree at the end of the same history with the flushes and reloads left out (`stripF`, `runH`: the
+histories of `C11_every_history` / `C01_heap_history`): the same nodes at the same offsets
+(`clean … = clean …`), hence the same cells in scan order, the same root, the same allocation frontier.
+No hypotheses. -/
+theorem C11_flushes_and_reloads_change_nothing_logical (ops : List FROp) (st : Levels × Nat) :
+    clean (runF st ops).1 = clean (runH st (stripF ops)).1 ∧
+    (flatten (runF st ops).1).map (fun e => (e.1, e.2.1)) = (flatten (runH st (stripF ops)).1).map (fun e => (e.1, e.2.1)) ∧
+    cells (runF st ops).1 = cells (runH st (stripF ops)).1 ∧
+    rootOff (runF st ops).1 = rootOff (runH st (stripF ops)).1 ∧
+    (runF st ops).2 = (runH st (stripF ops)).2 := by
+  obtain ⟨h1, h2⟩ := runF_erase ops st st rfl rfl
+  refine ⟨h1, ?_, ?_, ?_, h2⟩
+  · have := congrArg (fun t => (flatten t).map (fun e => (e.1, e.2.1))) h1
+    simp only [flatten_clean, List.map_map] at this
+    exact this
+  · rw [← cells_clean, h1, cells_clean]
+  · rw [← rootOff_clean, h1, rootOff_clean]
+
+/-- non-vacuity: in `opsF0` the flushes and reloads are really there (6 of 23 steps) and the tree they
+leave differs from the tree of the stripped history in dirty bits only -/
+example : opsF0.length = 23 ∧ (stripF opsF0).length = 17 ∧
+    (runF (emptyTree 4096, 8192) opsF0).1 ≠ (runH (emptyTree 4096, 8192) (stripF opsF0)).1 ∧
+    clean (runF (emptyTree 4096, 8192) opsF0).1 = clean (runH (emptyTree 4096, 8192) (stripF opsF0)).1 := by
+  decide
+
+/-- non-vacuity: the concrete history `opsF0` (12 inserts with a leaf split and a new root, a flush, an
+update, a delete, a flush in another order, a reload, a refused insert, a reload, two inserts with a
+second split, a flush, a reload) from the store `s0` of a fresh table meets every hypothesis -/
+example : HeapInv s0 (emptyTree 4096) ∧ RunOKF (emptyTree 4096, s0.hdr.nextFree) opsF0 ∧
+    (runF (emptyTree 4096, s0.hdr.nextFree) opsF0).1.inner.length + 1 ≤ treeFuel ∧
+    (runF (emptyTree 4096, s0.hdr.nextFree) opsF0).1.leaves.length = 3 :=
+  ⟨s0_heapInv, by decide, by decide, by decide⟩
+
+/-- non-vacuity of `C11_flush_and_reload_preserve_the_tree`: the store the history `opsF0` minus its last
+flush and reload ends in holds a tree with three leaves, two of them dirty, and meets the hypotheses -/
+example : ∃ s t, Holds s t ∧ Inv t s.hdr.nextFree ∧ MemFiled s ∧ SyncedT s t ∧ t.leaves.length = 3 ∧
+    clean t ≠ t := by
+  obtain ⟨s', _, _, _, h', hn⟩ := heapRunF_refines (opsF0.take 21) s0 (emptyTree 4096) s0_heapInv (by decide)
+  exact ⟨s', _, h'.holds, h'.inv, h'.filed, h'.synced, by decide, by decide⟩
 
 end Mkdb.Store
